@@ -31,7 +31,7 @@ import (
 )
 
 func init() {
-	props["C05"] = func(r *Rec) { runStake(r, "C05"); c05UpgradeFlow(r, "C05") }
+	props["C05"] = func(r *Rec) { runStake(r, "C05"); c05UpgradeFlow(r, "C05"); c05DuplicateConsKey(r, "C05") }
 	props["C15"] = func(r *Rec) { runStake(r, "C15") }
 }
 
@@ -1112,6 +1112,76 @@ func c05UpgradeFlow(r *Rec, prop string) {
 			if val, err := w.app.CustomStakingKeeper.GetValidator(w.ReadCtx(), sdk.ValAddress(w.addrs[v])); err == nil && val.Status != want {
 				r.Count(fmt.Sprintf("upgrade-flow:validator-%d-status-%s-want-%s", v, val.Status, want))
 			}
+		}
+	}
+}
+
+// c05DuplicateConsKey: an account with PermClaimValidator claims a seat announcing the CONSENSUS key of an existing active
+// validator (the claim handler looks at the operator address and the moniker only). The engine sees one key; the
+// application then records two active validators behind it. When the first of them leaves (its owner pauses it), the key
+// leaves the consensus set - the second validator is still Active in the application's books.
+func c05DuplicateConsKey(r *Rec, prop string) {
+	label := "witness-claim-with-the-consensus-key-of-another-validator"
+	r.Mark(label)
+	w := NewWorld(WorldOpts{NAcc: 6, NVal: 3, SudoAccs: []int{5}})
+	gk := w.app.CustomGovKeeper
+	ctx0 := w.KeeperCtx()
+	a, ok := gk.GetNetworkActorByAddress(ctx0, w.addrs[3])
+	if !ok {
+		a = govtypes.NewDefaultActor(w.addrs[3])
+	}
+	if err := gk.AddWhitelistPermission(ctx0, a, govtypes.PermClaimValidator); err != nil {
+		r.Count("dup-cons-key:setup-failed")
+		return
+	}
+	step := func(what string, txs [][]byte) (*BlockResult, bool) {
+		br := w.Block(txs, BlockOpts{Dt: 6 * time.Second})
+		if br.Panicked != nil {
+			r.Fail(prop+"/duplicate-consensus-key/panic", fmt.Sprintf("%s: block %d (%s) panicked in %s: %.200v", label, w.height, what, br.Phase, br.Panicked), nil)
+			return &br, false
+		}
+		if err := w.ApplyUpdates(br.Updates); err != nil {
+			r.Known("C05/claim/consensus-key-of-another-validator", fmt.Sprintf("%s: block %d (%s): the consensus engine rejects the validator updates: %v", label, w.height, what, err))
+			return &br, false
+		}
+		return &br, true
+	}
+	cm, err := stakingtypes.NewMsgClaimValidator("second-owner", sdk.ValAddress(w.addrs[3]), detConsKey(0).PubKey())
+	if err != nil {
+		r.Count("dup-cons-key:setup-failed")
+		return
+	}
+	br, okB := step("claim with validator 0's consensus key", [][]byte{w.MustSign([]sdk.Msg{cm}, 3, ukex(5000))})
+	if !okB {
+		return
+	}
+	accepted := len(br.Results) == 1 && br.Results[0].Code == 0
+	r.Count(fmt.Sprintf("dup-cons-key:claim-accepted=%v", accepted))
+	r.Case(label, accepted)
+	if !accepted {
+		return // refused: nothing to see (this is what a repaired handler does)
+	}
+	if _, okB = step("join", nil); !okB {
+		return
+	}
+	if _, okB = step("validator 0 pauses", [][]byte{w.MustSign([]sdk.Msg{slashingtypes.NewMsgPause(sdk.ValAddress(w.addrs[0]))}, 0, ukex(5000))}); !okB {
+		return
+	}
+	if _, okB = step("settle", nil); !okB {
+		return
+	}
+	ctx := w.ReadCtx()
+	inSet := map[string]bool{}
+	for _, v := range w.valSet.Validators {
+		inSet[string(v.Address)] = true
+	}
+	for _, i := range []int{0, 3} {
+		val, err := w.app.CustomStakingKeeper.GetValidator(ctx, sdk.ValAddress(w.addrs[i]))
+		if err != nil {
+			continue
+		}
+		if (val.Status == stakingtypes.Active) != inSet[string(val.GetConsAddr())] {
+			r.Known("C05/claim/consensus-key-of-another-validator", fmt.Sprintf("%s: after validator 0 paused, the validator of account %d has status %s and its consensus key is in the set: %v (two validator records behind one consensus key)", label, i, val.Status, inSet[string(val.GetConsAddr())]))
 		}
 	}
 }
